@@ -239,6 +239,8 @@ def mapCoordinates (spl : Spl) (isBool : Bool) (im : Img3) (pts : PtArr) (mode :
     V3 → Rat :=
   fun p => samplerOf3 spl order (Src.effMode isBool mode cval) im (pts p)
 def sampledAllTrue (_s : Sampled) : Bool := true
+/-- `points.shape[0]`: how many points an array of points holds (only the length of the output buffer: unused) -/
+def nPointsOf (_p : PtArr) : Nat := 0
 def indicesForImageOfShape (_s : IVec) : PtArr := id
 def applyPts (t : TObj) (pts : PtArr) (_batch : Option Nat) : PtArr := fun p => t.app (pts p)
 def reshapeSampled (s : Sampled) (shape : IVec) : Pixels :=
